@@ -31,6 +31,7 @@ SHADOWED = set()
 DIR = None
 OPTION_PROBE = False
 ZERO_D = []
+NUDGE = [False]
 PER_KEY = int(os.environ.get("VERIF_FORMS_PER_KEY", "2"))
 MAX_ELEMS = 6000
 SLOW = float(os.environ.get("VERIF_FORMS_SLOW", "0.05"))
@@ -199,6 +200,50 @@ def _same(a, b, exact):
     return True
 
 
+def _dist(a, b):
+    """largest relative difference between two answer signatures (inf when their structure differs)"""
+    if a is None and b is None:
+        return 0.0
+    if a is None or b is None or a[0] != b[0]:
+        return float("inf")
+    if a[0] == "arr":
+        if a[2].shape != b[2].shape:
+            return float("inf")
+        with np.errstate(all="ignore"):
+            x, y = a[2], b[2]
+            ok = (x == y) | (np.isnan(x) & np.isnan(y))
+            if np.all(ok):
+                return 0.0
+            d = np.where(ok, 0.0, np.abs(x - y) / (1.0 + np.abs(x)))
+            d = np.where(np.isnan(d), np.inf, d)
+            return float(np.max(d))
+    if a[0] == "seq":
+        if len(a[1]) != len(b[1]):
+            return float("inf")
+        return max([_dist(x, y) for x, y in zip(a[1], b[1])] or [0.0])
+    if a[0] == "map":
+        if len(a[1]) != len(b[1]) or any(x[0] != y[0] for x, y in zip(a[1], b[1])):
+            return float("inf")
+        return max([_dist(x[1], y[1]) for x, y in zip(a[1], b[1])] or [0.0])
+    if a[0] == "obj":
+        if a[1] != b[1]:
+            return float("inf")
+        da, db = dict(a[2]), dict(b[2])
+        return max([_dist(da[k], db[k]) for k in da if k in db] or [0.0])
+    if a[0] == "str":
+        return 0.0 if a[1] == b[1] else float("inf")
+    return 0.0
+
+
+def _nudge(a):
+    """the same argument one unit in the last place away (to measure how the call amplifies rounding noise of its input)"""
+    if type(a) is np.ndarray and a.dtype.kind == "f":
+        return np.nextafter(a, np.where(a >= 0, np.inf, -np.inf))
+    if type(a) is float:
+        return math.nextafter(a, math.inf if a >= 0 else -math.inf)
+    return a
+
+
 def _snap(o):
     """a working copy of the object a method is called on"""
     if isinstance(o, np.ndarray):
@@ -318,6 +363,9 @@ def _shadow(name, orig, mode, args, kwargs):
                         a2[pos - first] = _reform(a2[pos - first], f)
                     else:
                         k2[pos] = _reform(k2[pos], f)
+                if NUDGE[0]:
+                    a2 = [_nudge(a) for a in a2]
+                    k2 = {k: _nudge(v) for k, v in k2.items()}
                 np.random.set_state(rs)
                 if mode == "fn":
                     r = orig(*a2, **k2)
@@ -345,6 +393,20 @@ def _shadow(name, orig, mode, args, kwargs):
                 _emit("unreproducible", name)
                 SEEN[key] = 10 ** 9
                 return ret
+            # how much does the answer move when every float of the input moves by one ulp?  A form may change the order of a sum
+            # (strided vs contiguous, list vs array): that is rounding noise of the same size, amplified by the call's own conditioning
+            noise = 0.0
+            try:
+                NUDGE[0] = True
+                nd = again(tuple({"str": "as-given", "num": "float"}.get(k, "ndarray") for k in kinds))
+                noise = max(_dist(p_, q_) for p_, q_ in zip(nd, base))
+            except Exception:
+                noise = 0.0
+            finally:
+                NUDGE[0] = False
+            if not noise < float("inf"):
+                noise = 0.0
+            limit = max(1e-9, 1e4 * noise)
             _emit("count", "calls-shadowed")
             if name not in SHADOWED:
                 SHADOWED.add(name)
@@ -373,7 +435,7 @@ def _shadow(name, orig, mode, args, kwargs):
                         _emit("count", "form-refused-by-the-library")
                     continue
                 _emit("count", "form-vectors-compared")
-                if not same(got, base, False):
+                if max(_dist(p_, q_) for p_, q_ in zip(got, base)) > limit:
                     _emit("finding", ("%s|forms|%s|%s|answer-depends-on-the-form-of-the-argument" % (PROP, name, _describe(kinds, fv)),
                                      {"callable": name, "forms": _describe(kinds, fv),
                                       "arguments": [repr(a)[:200] for a in p_args] + ["%s=%s" % (k, repr(v)[:200]) for k, v in p_kw.items()],
